@@ -830,3 +830,36 @@ impl<'g, G: AffineRepr, T: BorrowMut<Transcript>> Prover<'g, G, T> {
         Ok((proof, self.transcript))
     }
 }
+
+/// Verification hooks (compiled only with `--cfg ark_bulletproofs_verif`).
+#[cfg(ark_bulletproofs_verif)]
+impl<'g, G: AffineRepr, T: BorrowMut<Transcript>> Prover<'g, G, T> {
+    /// Overwrites the low-level assignment of gate `i` (lets the harness run the
+    /// unmodified proving procedure on a witness that violates a gate).
+    pub fn verif_set_gate(
+        &mut self,
+        i: usize,
+        l: G::ScalarField,
+        r: G::ScalarField,
+        o: G::ScalarField,
+    ) {
+        self.secrets.a_L[i] = l;
+        self.secrets.a_R[i] = r;
+        self.secrets.a_O[i] = o;
+    }
+
+    /// Copies of the low-level assignments `(a_L, a_R, a_O)`.
+    pub fn verif_secrets(
+        &self,
+    ) -> (
+        Vec<G::ScalarField>,
+        Vec<G::ScalarField>,
+        Vec<G::ScalarField>,
+    ) {
+        (
+            self.secrets.a_L.clone(),
+            self.secrets.a_R.clone(),
+            self.secrets.a_O.clone(),
+        )
+    }
+}
